@@ -777,6 +777,15 @@ class FileSearcher(SearcherBase):
                    "aborting search")
             raise FileSearchException(msg) from exc
         finally:
+            # No worker process is left at this point. One that died (or was
+            # terminated along with a broken pool) may have been holding the
+            # results store lock; make sure it is free again, otherwise the
+            # info thread and any later search would block forever.
+            if not RESULTS_STORE_LOCK.acquire(timeout=1):
+                log.warning("results store lock left held by a dead worker "
+                            "- releasing it")
+
+            RESULTS_STORE_LOCK.release()
             results_thread.stop()
             info_thread.stop()
 
